@@ -493,6 +493,8 @@ def gen_value(rng, ir, t, depth=3, top=False, alphabet='xml', subclass_ok=False)
     absence (min_occurs=0) or nil."""
     optional = t.get('min_occurs', 0) == 0
     nillable = t.get('nillable', True)
+    if 'xmldata' in t and t['xmldata'].get('prim') not in ('Unicode',):
+        top = True      # the text content of a simpleContent type cannot be absent unless it is a string
     if not top and (optional or nillable) and rng.random() < .15:
         return None
     if 'prim' in t:
